@@ -1831,19 +1831,33 @@ BTree_rangeSearch(BTree *self, PyObject *args, PyObject *kw, char type)
         KEY_TYPE first;
         KEY_TYPE last;
         int cmp;
+        int cmp_failed = 0;
 
-        /* Have to check the hard way:  see how the endpoints compare. */
+        /* Have to check the hard way:  see how the endpoints compare.
+         * The buckets are released before the comparison runs, so own the
+         * keys while it does:  comparing objects can run arbitrary code,
+         * including a cache sweep that ghostifies both buckets.
+         */
         UNLESS (PER_USE(lowbucket))
             goto err_and_decref_buckets;
         COPY_KEY(first, lowbucket->keys[lowoffset]);
+        INCREF_KEY(first);
         PER_UNUSE(lowbucket);
 
         UNLESS (PER_USE(highbucket))
+        {
+            DECREF_KEY(first);
             goto err_and_decref_buckets;
+        }
         COPY_KEY(last, highbucket->keys[highoffset]);
+        INCREF_KEY(last);
         PER_UNUSE(highbucket);
 
         TEST_KEY_SET_OR(cmp, first, last)
+            cmp_failed = 1;
+        DECREF_KEY(first);
+        DECREF_KEY(last);
+        if (cmp_failed)
             goto err_and_decref_buckets;
         if (cmp > 0)
                 goto empty_and_decref_buckets;
